@@ -102,16 +102,34 @@ def program_lines(rng, g, ops):
     return lines
 
 
+def tame_scalings(g, coeffs, tangent, N, rng):
+    """C1 (and Bundles with a C1 part) has a scaling factor: a chain of N multiplications by r or N increments of
+    log r = t leaves the range of double unless |log r| <= 20 / N (e^20 = 5e8).  The property's 'finite' presumes
+    results that are representable; the chains therefore keep the accumulated scaling below e^20."""
+    for item in LAYOUT[g]:
+        if item[0] == "conf":
+            th = rng.uniform(-math.pi, math.pi)
+            r = math.exp(rng.uniform(-1, 1) * 20.0 / max(N, 1))
+            coeffs[item[1]], coeffs[item[1] + 1] = r * math.sin(th), r * math.cos(th)
+    for idx in SCALE_IDX.get(g, []):
+        tangent[idx] = rng.uniform(-1, 1) * 20.0 / max(N, 1)
+    return coeffs, tangent
+
+
+# tangent coordinates that are the logarithm of a scaling factor (C1: coordinate 0; Bundle 11 has C1 at tangent offset 5)
+SCALE_IDX = {4: [0], 11: [5]}
+
+
 def chain_lines(rng, g, N, kind):
-    lines = ["reset", f"sete 0 {hexs(rand_coeffs(rng, g))}", f"sete 1 {hexs(rand_coeffs(rng, g, 0.01))}",
-             f"sett 0 {hexs(rand_tangent(rng, g, 0.05))}"]
+    e1, t0 = tame_scalings(g, rand_coeffs(rng, g, 0.01), rand_tangent(rng, g, 0.05), N, rng)
+    lines = ["reset", f"sete 0 {hexs(rand_coeffs(rng, g))}", f"sete 1 {hexs(e1)}", f"sett 0 {hexs(t0)}"]
     if kind == "mul":
         lines.append(f"repeat {N} muleq 0 1 0")
     elif kind == "plus":
         lines.append(f"repeat {N} pluseq 0 0 0")
     elif kind == "plus_small":
         # increments whose rotation part sits in the small-angle branches of exp (|theta| ~ 1e-5 .. 1e-4)
-        lines[3] = f"sett 0 {hexs(rand_tangent(rng, g, 8e-5, 0.5))}"
+        lines[3] = f"sett 0 {hexs(tame_scalings(g, list(e1), rand_tangent(rng, g, 8e-5, 0.5), N, rng)[1])}"
         lines.append(f"repeat {N} pluseq 0 0 0")
     elif kind == "ginvg":
         # x <- (x * y^-1) * y with a fresh y: the history grows by 3 per round (composing x with its own inverse
